@@ -181,9 +181,10 @@ def r2(ctx, eff):
             v = r.value
             if isinstance(v, ast.Name):
                 d = pat.single_def(ctx, f, v)
-                gs = [text(t).replace(" ", "") for t, pol in guards(r) if pol]
-                if d is not None and text(d) == "self.getRoot()" and any(
-                        "isinstance(%s,Payload)" % v.id in g for g in gs):
+                from ..cfg import atomic_guards
+                gs = {pat.catom(ctx, f, t, pol, False) for t, pol in atomic_guards(r)}
+                if d is not None and text(d) == "self.getRoot()" and \
+                        pat.T("isinstance(%s, Payload)" % v.id) in gs:
                     rank0 = True
             if isinstance(v, ast.Call) and isinstance(v.func, ast.Attribute) and \
                     v.func.attr == mname:
